@@ -335,3 +335,61 @@ REG[('SelectedMailbox', 'fork')] = _fork_model
 do_command_sel = _cmd_contract(STATE, 'mailbox-selected')
 do_command_nosel = _cmd_contract(STATE_NOSEL, 'nothing-selected')
 CONTRACTS += [do_command_sel, do_command_nosel]
+
+
+# ---- ConnectionState.do_greeting (C05): what the run loop's model of the greeting relies on (contracts/runstate.py
+#      assumed "answers OK / PREAUTH, or raises ResponseError"; proved here on the real method)
+from pymap.parsing.response import ResponseOk as _ROk, ResponsePreAuth as _RPreAuth, ResponseBye as _RBye  # noqa: E402
+
+_CredR = RefS('Creds')
+GreetCfg = RecS('IMAPConfig', reject_dnsbl=BOOL, preauth_credentials=OptS(_CredR), tls_auth=RefS('Auth'),
+                greeting=RefS('Bytes'))
+SockInfo = RecS('SocketInfo', dnsbl=OptS(RefS('Str')), from_localhost=BOOL)
+GREET_STATE = RecS('ConnectionState', pyclass=(F, 'ConnectionState'), _session=OptS(SessR), auth=RefS('Auth'),
+                   config=GreetCfg, capability=RefS('CapList'))
+
+
+def _greet_sock(ex, frame, e, base=None):
+    return ex.st.new_record(SockInfo, 'sock_info')
+
+
+def _greet_login(ex, frame, e, base=None):
+    """self._login(creds): returns a session or raises a ResponseError (its own contract is C09's subject)"""
+    ex.eval_args(e, frame)
+    ex.st.ghost['login_called'] = VBool(True)
+    if ex.decide(BOOL.fresh('login_refused')):
+        raise PyRaise(ResponseError)
+    return SessR.fresh('session')
+
+
+def _greet_response(ex, frame, e, base=None):
+    """resp_cls(b'*', greeting, capability): the class is whatever the real code bound to resp_cls on this path"""
+    args, kw = ex.eval_args(e, frame)
+    cls = frame.env['resp_cls']
+    py = getattr(cls, 'py', None)
+    base_name = f'{ex.c.name}/greeting'
+    ex.oblige(f'{base_name}/is_an_OK_or_a_PREAUTH_response_never_a_BYE',
+              z3.BoolVal(py in (_ROk, _RPreAuth) and not issubclass(py, _RBye)))
+    tag = args[0]
+    ex.oblige(f'{base_name}/is_untagged', z3.And(tag.n == 1, tag.arr[0] == 42) if isinstance(tag, VList) else z3.BoolVal(False))
+    ex.st.ghost['preauth_greeting'] = VBool(py is _RPreAuth)
+    return RespR.fresh('greeting')
+
+
+def _greet_ghost(st, sc):
+    st.ghost['login_called'] = VBool(False)
+    st.ghost['preauth_greeting'] = VBool(False)
+
+
+do_greeting = Contract(
+    'C05', F, 'ConnectionState.do_greeting', params=dict(self=GREET_STATE),
+    requires=[('no_session_yet', lambda s: is_none(s.self._session))],
+    ensures=[('logs_in_exactly_when_preauth_credentials_are_configured',
+              lambda s: s.ghost('login_called') == ~is_none(s.self.config.preauth_credentials)),
+             ('PREAUTH_exactly_when_a_session_was_established',
+              lambda s: s.ghost('preauth_greeting') == ~is_none(s.self._session)),
+             ('a_session_only_from_a_login', lambda s: implies(~is_none(s.self._session), s.ghost('login_called')))],
+    calls={'socket_info.get': _greet_sock, 'self._login': _greet_login, 'resp_cls': _greet_response,
+           'NotAllowedError': lambda ex, frame, e, base=None: RefS('Exc').fresh('exc')},
+    ghost_init=_greet_ghost, modifies=['self._session', 'self.auth'], raises={ResponseError: [
+        ('a_refused_greeting_leaves_no_session', lambda s: is_none(s.self._session))]}, returns=RespR)
